@@ -25,6 +25,9 @@ def setup(chk, configs=None, docs=None):
     """builds (or reuses) the driver for the working tree.  On failure reports a violation without input."""
     if configs is None:
         configs = genbuild.CONFIGS_QUICK if chk.tier == 'quick' else genbuild.CONFIGS_QUICK + ('split',)
+    if docs is None and chk.tier != 'quick':
+        # thorough: the hand-written corpus plus seeded random documents
+        docs = gengen.corpus() + gengen.random_docs(chk.seed, 6)
     gb = genbuild.build(configs, docs=docs)
     chk.cov['build'] = dict(stage=gb.stage, configs=list(configs))
     if not gb.ok:
